@@ -95,7 +95,9 @@ class MakeFilename(object):
         self._methods = methods
 
     def _set_context(self, context):
-        self._context = context
+        # deep copy, otherwise later elements of the sequence
+        # (which update the same dictionary) would change our context
+        self._context = deepcopy(context)
 
     def __call__(self, value):
         """Add *output* keys to the *value*'s context.
